@@ -120,3 +120,20 @@ meta("C15",
      "return_immediately or after the constant timer; each streamed item is built from the pull of the same iteration.",
      ["numeric wrap beyond the bound argument"],
      ["Ord::clamp / min semantics"])
+
+meta("C19",
+     "Check-then-park structure of wait_for_available_space: in every loop iteration the Notified future is created before the availability "
+     "check which precedes the await (dominance); every return lies under the positive arm of a check; inc/dec update both counters and then "
+     "call notify_waiters on every path; the availability check answers true only through messages < max_messages and bytes < max_bytes, each "
+     "counter paired with its own limit.",
+     [],
+     ["tokio Notify: a Notified future receives notify_waiters wake-ups from the moment it is created"])
+
+meta("C13",
+     "Pagination structure: interval analysis of the page-size normalisation (0 -> 20, 1..1000 identity, >1000 -> 1000) and of the accessor's "
+     "cap; TryFrom-based rejection of negative sizes and INVALID_ARGUMENT for undecodable tokens; the three listing pipelines agree on "
+     "filter(project) -> sort(Ord) -> skip(offset) -> take(size) -> next page, with skip/take fed from Paging.offset/size unchanged; Ord of "
+     "Topic/Subscription compares exactly internal_id which comes from an increasing counter; next offset = offset + len only on the "
+     "non-empty arm; token codec uses the same engine and byte order on both sides; no panicking call in the pipelines.",
+     ["'every resource exactly once' for concrete N and page sizes (arithmetic over runtime lengths)"],
+     ["Iterator::skip/take semantics; slice::sort_unstable by Ord"])
